@@ -148,7 +148,7 @@ def run(prop, tier, seed, replay=None):
         for i, b in enumerate(seen.values()):
             if not (set(b['doc']) & langsyms):
                 continue
-            combos = [(MAINS[i % 3], c.rng.randrange(6))] if q else [(m, t) for m in MAINS for t in (0, 1, 2, 5)]
+            combos = [(MAINS[i % 3], c.rng.randrange(6))] if q else [(MAINS[(i + k) % 3], (i + 2 * k) % 6) for k in range(3)]
             for m, t in combos:
                 cases.append(dict(id=len(cases), doc=b['doc'], src=b['src'], mainlang=m, thresh=t))
     if not replay:
